@@ -6,7 +6,10 @@ import (
 	"context"
 	"fmt"
 	"os"
+	"os/exec"
 	"path/filepath"
+	"runtime"
+	"runtime/debug"
 	"strings"
 	"sync"
 	"time"
@@ -66,6 +69,83 @@ func main() {
 	}
 	var mu sync.Mutex
 	hx.Cases(func(c map[string]any) map[string]any {
+		if c["mode"] == "pidreuse" {
+			// (needs a private pid namespace with a small pid_max) run A ends while a descendant is alive; process numbers are used up until
+			// the descendant's number is next; run B's main process gets it: B must be treated like any new tracee
+			os.WriteFile("/proc/sys/kernel/pid_max", []byte("400"), 0644)
+			// no garbage collection between the two runs: whatever the library keeps between runs (pools, caches) stays
+			defer debug.SetGCPercent(debug.SetGCPercent(-1))
+			defer runtime.GOMAXPROCS(runtime.GOMAXPROCS(1)) // one scheduler context: per-context caches are the same for both runs
+			one := func(script, dir, out string) (runner.Result, []string) {
+				h := &byName{}
+				r := &ptrace.Runner{Args: []string{hx.Target(), "verdicts", script, dir, out}, Env: []string{}, WorkDir: dir,
+					Limit: runner.Limit{TimeLimit: 20 * time.Second, MemoryLimit: runner.Size(1 << 30)}, Seccomp: filter, Handler: h}
+				res := r.Run(context.Background())
+				tr := ptracer.VerifTakeTraces()
+				var log []string
+				for _, t := range tr {
+					log = append(log, t...)
+				}
+				return res, log
+			}
+			// numbers up to 300 are never handed out again after a wrap: get past them first
+			for i := 0; i < 400; i++ {
+				cmd := exec.Command("/bin/true")
+				if cmd.Start() == nil {
+					pid := cmd.Process.Pid
+					cmd.Wait()
+					if pid >= 310 {
+						break
+					}
+				}
+			}
+			_, logA := one(c["script_a"].(string), c["dir"].(string), c["out_a"].(string))
+			leader, child := 0, 0
+			for _, l := range logA {
+				var k string
+				var p, a int
+				fmt.Sscanf(l, "%s %d %d", &k, &p, &a)
+				if k == "wait" && leader == 0 {
+					leader = p
+				}
+				if k == "wait" && p != leader {
+					child = p
+				}
+			}
+			if child == 0 {
+				return map[string]any{"harness_err": "run A had no descendant"}
+			}
+			delta, tries := 1, []int{}
+			for lap := 0; lap < 6000; lap++ {
+				cmd := exec.Command("/bin/true")
+				if cmd.Start() != nil {
+					continue
+				}
+				pid := cmd.Process.Pid
+				cmd.Wait()
+				if pid == child-delta {
+					os.Remove(c["out_b"].(string))
+					resB, logB := one(c["script_b"].(string), c["dir"].(string), c["out_b"].(string))
+					b, _ := os.ReadFile(c["out_b"].(string))
+					// the number of B's main process: the first task its tracer heard of (the program may not even get to report it)
+					var pb int
+					if len(logB) > 0 {
+						var k string
+						var a int
+						fmt.Sscanf(logB[0], "%s %d %d", &k, &pb, &a)
+					}
+					if pb == child {
+						return map[string]any{"reused": child, "log_b": logB, "status_b": int(resB.Status), "out_b": string(b), "laps": lap, "tries": tries}
+					}
+					// the launch used up more numbers than assumed (threads of the runtime): aim accordingly next time round
+					tries = append(tries, pb-pid)
+					if pb > pid && pb-pid < 50 {
+						delta = pb - pid
+					}
+				}
+			}
+			return map[string]any{"reused": 0, "tries": tries, "child": child}
+		}
 		par := int(hx.Int(c["parallel"]))
 		if par == 0 {
 			par = 1
